@@ -75,7 +75,7 @@ def rmeta_build(src, tag):
     sp = os.path.join(d, "lib.rs")
     with open(sp, "w") as f:
         f.write(src)
-    p = subprocess.run(["rustc", "--edition", "2021", "--emit=metadata", "--crate-type", "lib", "--crate-name", "c15", "--cap-lints", "allow",
+    p = subprocess.run(["rustc", "--edition", "2021", "--emit=metadata", "--crate-type", "lib", "--crate-name", "c15", "-A", "warnings",
                         "--out-dir", d, "--extern", "enum_tools=" + dylib, sp], stdout=subprocess.PIPE, stderr=subprocess.PIPE, env=ENV)
     out = os.path.join(d, "libc15.rmeta")
     if p.returncode != 0 or not os.path.exists(out):
@@ -303,9 +303,35 @@ def c15(tier):
             res.violation({"kind": "derive-adds-unrequested-item", "config": cfg.describe(), "errors": v.errors[:3]},
                           {"rustc": v.to_json()}, {"repro.rs": src + "\nfn main() {}\n"})
 
+    # ---- default struct names are EnumName+Iter / EnumName+Names whatever the enum is called (seed C15-r6m2: a hand-written
+    #      raw-prefix strip ate leading `r`s); a raw identifier's name is the identifier without `r#`
+    ENUM_NAMES = ["E", "rgb", "r", "R", "Rr", "rr", "r2d2", "rrr_x", "r#ref", "r#type", "r#return", "r#rr", "Iter", "Names", "_x", "__E", "x_", "e", "T",
+                  "\u00c4rger", "r\u00e9sum\u00e9", "hash_r", "IterNames", "Er", "rE"]
+    name_cases = []
+    for nm in ENUM_NAMES:
+        plain = nm[2:] if nm.startswith("r#") else nm
+        for g, body in ((True, "A = 1, B = 2, C = 3"), (False, "A = 1, B = 2, C = 9")):
+            for im in ([None, "table"] if tier == "quick" else [None, "next_and_back", "table", "table_inline"] + (["range"] if g else [])):
+                ip = {} if im is None else {"mode": im}
+                cfg = Config([("iter", ip), "names"] + (["range"] if im != "table_inline" else []))
+                src = ("#![allow(warnings)]\npub mod inner {\n use enum_tools::EnumTools;\n #[derive(Clone, Copy, EnumTools)]\n #[enum_tools(%s)]\n #[repr(i8)]\n"
+                       " pub enum %s { %s }\n}\nfn probe() {\n let a: inner::%sIter = inner::%s::iter();\n let b: inner::%sNames = inner::%s::names();\n%s}\n"
+                       % (cfg.attr_text(), nm, body, plain, nm, plain, nm,
+                          (" let c: inner::%sIter = inner::%s::range(inner::%s::A, inner::%s::B);\n" % (plain, nm, nm, nm)) if im != "table_inline" else ""))
+                name_cases.append((nm, cfg, src))
+    nv = e2.compile_many([{"src": c[2]} for c in name_cases])
+    for (nm, cfg, src), v in zip(name_cases, nv):
+        res.states += 1
+        res.transitions += 1
+        res.validated += 1
+        res.outcome("default-struct-name-probe")
+        if not v.ok:
+            res.violation({"kind": "default-struct-name-not-enum-name-plus-suffix", "enum_name": nm, "config": cfg.describe(), "errors": v.errors[:2]},
+                          {"rustc": v.to_json()}, {"repro.rs": src + "\nfn main() {}\n"})
+
     # ---- dependants use the renamed items: everything renamed, built and run
     subs = []
-    bounds = dict(x1_depth=2, x2_extra=1, x2_cap=5, range_x1_depth=1, range_x2_extra=1)
+    bounds = dict(x1_depth=2, x2_extra=1, x2_cap=5, range_x1_depth=1, range_x2_extra=1, consumers=False)
     base_decls = [make_decl("i8", [4, 6, 3, 5], salt=2), make_decl("i8", [-5, 3, -10, -4], salt=5), make_decl("u64", [9, 1, 2], salt=3)]
     if tier == "thorough":
         for r in ("i8", "u16", "i64"):
